@@ -59,6 +59,11 @@ def main(ctx):
         # journal faults while groups overflow: the error path of the hand-off
         jf = "%s:journal:%d:%d" % (rng.choice(["write", "sync"]), rng.randint(2, 40), rng.choice([1, 3, 0]))
         jobs.append({"seed": seed, "tag": "jfault-" + jf.replace(":", "_"), "fault": jf, "writers": 5, "fat": 2})
+    # SetReadOnly at a random moment, racing the writers and (half of the time) Close
+    for i in range(16 if ctx.quick else 160):
+        seed = ctx.seed * 1000 + 700 + i
+        jobs.append({"seed": seed, "tag": "setro" + ("-close" if i % 2 == 0 else ""), "setro": True, "close": i % 2 == 0,
+                     "writers": 2 + i % 3, "n": 60})
     csums = conc_runs(ctx, jobs)
     judge(ctx, csums, "C09")
     ctx.extra["concurrent_runs_with_fault_injected"] = sum(1 for s in csums if s.get("injected", 0) > 0)
